@@ -340,7 +340,7 @@ Example ex_connected :
   connected (tab_of d) /\ exists r, make_loop_index (tab_of d) = Ok r.
 Proof.
   cbn zeta. assert (H : exists r, make_loop_index (tab_of (DP (DU (DB (DP (DB DNil) DNil))) DNil)) = Ok r).
-  { eexists. reflexivity. }
+  { eexists. apply li_spec_ok. unfold ends. cbn. repeat constructor; cbn; intuition discriminate. }
   split; [apply connected_iff, H|exact H].
 Qed.
 
@@ -348,6 +348,8 @@ Example ex_not_connected :
   let d := DP (DB DNil) (DB (DU DNil)) in              (* "(+)+." *)
   ~ connected (tab_of d) /\ make_loop_index (tab_of d) = Err eSSE.
 Proof.
-  cbn zeta. split; [|reflexivity].
-  intros H. apply connected_iff in H. destruct H as [r H]. discriminate.
+  cbn zeta.
+  assert (E : make_loop_index (tab_of (DP (DB DNil) (DB (DU DNil)))) = Err eSSE) by (vm_compute; reflexivity).
+  split; [|exact E].
+  intros H. apply connected_iff in H. destruct H as [r H]. rewrite E in H. discriminate.
 Qed.
